@@ -131,7 +131,7 @@ inductive PadResult
   | none                               -- fewer than two extrema: the code returns (None, None)
   | fuel                               -- the model's loop bound was hit (proved impossible)
   | ok (locs mags : List Rat)
-  deriving Repr
+  deriving Repr, DecidableEq
 
 /-- `get_padded_extrema(x, pad_width=w, mode, parabolic_extrema=parab)` with the default pad options -/
 def paddedExtrema (w : Nat) (m : Mode) (parab : Bool) (x : Sig) : PadResult :=
@@ -151,6 +151,12 @@ def paddedExtrema (w : Nat) (m : Mode) (parab : Bool) (x : Sig) : PadResult :=
 /-- the interpolant (splrep/splev, PchipInterpolator, pchip) is an oracle -/
 structure Interp where
   eval : List Rat → List Rat → Rat → Rat
+
+/-- the contract of the oracle used by the pass-through theorems (validated against scipy on every run):
+    through strictly increasing knots the interpolant takes the knot values -/
+def Interp.Interpolates (I : Interp) : Prop :=
+  ∀ (locs mags : List Rat) (i : Nat) (t v : Rat), locs.Pairwise (· < ·) → locs.length = mags.length →
+    locs[i]? = some t → mags[i]? = some v → I.eval locs mags t = v
 
 /-- `np.arange(start, stop)` (step 1): `ceil(stop - start)` values `start + k` -/
 def arange (start stop : Rat) : List Rat :=
@@ -183,7 +189,7 @@ inductive EnvResult
   | valueError                            -- 'Envelope length does not match input data'
   | fuel
   | ok (env locs mags : List Rat)
-  deriving Repr
+  deriving Repr, DecidableEq
 
 /-- `interp_envelope(x, mode, interp_method, extrema_opts={pad_width: w, parabolic_extrema: parab}, ret_extrema=True)` -/
 def interpEnvelope (I : Interp) (em : EMode) (w : Nat) (parab : Bool) (x : Sig) : EnvResult :=
